@@ -20,6 +20,46 @@
 #include "Hash.hh"
 #include "common.hh"
 
+
+// ---- early-call probe -------------------------------------------------------------------------------
+// A namespace-scope object of the harness TU: its constructor runs during static initialization, before main() and (the
+// harness object precedes libphosg.a on the link line) before libphosg's own dynamic initializers.  It calls every C10
+// function once on a fixed input and only stores what came back; main() compares with the oracle's values
+// (--arg early_expect=...).  No vf:: function is used here.
+static const char EARLY_INPUT[] = "early call probe: The quick brown fox jumps over the lazy dog 0123456789 \x00\xff\x80 phosg";
+static const size_t EARLY_LEN = sizeof(EARLY_INPUT) - 1;
+static const size_t EARLY_CUT = 17;
+struct EarlyProbe {
+  bool ran = false, threw = false;
+  std::string md5_bin, md5_hex, sha1_bin, sha1_hex, sha256_bin, sha256_hex;
+  uint32_t crc = 0, crc_prefix = 0, fnv32 = 0, fnv32s = 0;
+  uint64_t fnv64 = 0, fnv64s = 0;
+  EarlyProbe() {
+    try {
+      std::string s(EARLY_INPUT, EARLY_LEN);
+      phosg::MD5 m(EARLY_INPUT, EARLY_LEN);
+      md5_bin = m.bin();
+      md5_hex = m.hex();
+      phosg::SHA1 s1(s);
+      sha1_bin = s1.bin();
+      sha1_hex = s1.hex();
+      phosg::SHA256 s2(EARLY_INPUT, EARLY_LEN);
+      sha256_bin = s2.bin();
+      sha256_hex = s2.hex();
+      crc = phosg::crc32(EARLY_INPUT, EARLY_LEN);
+      crc_prefix = phosg::crc32(EARLY_INPUT, EARLY_CUT);  // running value computed early, chained later in main()
+      fnv32 = phosg::fnv1a32(EARLY_INPUT, EARLY_LEN);
+      fnv32s = phosg::fnv1a32(s);
+      fnv64 = phosg::fnv1a64(EARLY_INPUT, EARLY_LEN);
+      fnv64s = phosg::fnv1a64(s);
+    } catch (...) {
+      threw = true;
+    }
+    ran = true;
+  }
+};
+static EarlyProbe g_early;
+
 using namespace std;
 using vf::fmt;
 
@@ -60,7 +100,7 @@ static string lenclass(size_t n) {
 }
 
 static string describe(const Case& k) {
-  string d = fmt("case=%u kind=%s fill=%s len=%u", k.id, k.kind == 1 ? "random" : k.kind == 3 ? "concurrency-set" : k.kind == 4 ? "length-ladder" : "enumerated-length", FILLS[k.fill & 3], k.len);
+  string d = fmt("case=%u kind=%s fill=%s len=%u", k.id, k.kind == 1 ? "random" : k.kind == 3 ? "concurrency-set" : k.kind == 4 ? "length-ladder" : k.kind == 5 ? "dense-length-sweep" : k.kind == 6 ? "digest-shape-directed" : "enumerated-length", FILLS[k.fill & 3], k.len);
   if (k.len <= 80) d += " data=" + vf::hex(k.data, k.len);
   else d += " data[0..32)=" + vf::hex(k.data, 32) + "... (regenerate: vf/oracles/c10.py)";
   return d;
@@ -241,6 +281,103 @@ static void check_seeded_values(const Case& k, const uint8_t* p, const string& s
   C->cls(fmt("seeded:value:%s", k.seed32 == 0 ? "seed0" : k.seed32 == 0xFFFFFFFFu ? "seed-all-ones" : "seed-other"));
 }
 
+// ---- alignment sweep ----------------------------------------------------------------------------------
+// The same bytes at every misalignment 0..15 of a 16-byte aligned block, (a) flush against the END of an exact-size block
+// (ASan sees any read past the range) and (b) with 16 spare bytes after the range (a function that reads or returns more
+// than `size` bytes shows up in the value).  Every (ptr,size) entry point must give the oracle's value at every offset.
+static void check_alignment(const Case& k, bool all_offsets) {
+  size_t n = k.len;
+  static const size_t some[] = {1, 3, 7, 8, 9, 15};
+  size_t noff = all_offsets ? 16 : sizeof(some) / sizeof(some[0]);
+  for (size_t oi = 0; oi < noff; oi++) {
+    size_t off = all_offsets ? oi : some[oi];
+    for (int slack = 0; slack < (all_offsets ? 2 : 1); slack++) {
+      size_t total = off + n + (slack ? 16 : 0);
+      void* blk = nullptr;
+      if (posix_memalign(&blk, 16, total ? total : 1) != 0) {
+        fprintf(stderr, "[harness-error] posix_memalign\n");
+        exit(3);
+      }
+      uint8_t* p = (uint8_t*)blk + off;
+      if (slack) memset(blk, 0xA5, total);
+      if (n) memcpy(p, k.data, n);
+      C->crumb_n("alignment", k.id, n, off, (uint64_t)slack);
+      C->evaluations += 6;
+      string tag = fmt("offset%%16=%zu %s", off, slack ? "16 spare bytes after the range" : "range ends at the end of the heap block");
+      {
+        PH_CTOR(phosg::MD5 h(p, n));
+        string b = PH(h.bin());
+        if (b != string((const char*)k.md5, 16)) C->violation("md5:alignment", "MD5(ptr,size) depends on the alignment of ptr", describe(k) + " " + tag + " got=" + vf::hex(b));
+      }
+      {
+        PH_CTOR(phosg::SHA1 h(p, n));
+        string b = PH(h.bin());
+        if (b != string((const char*)k.sha1, 20)) C->violation("sha1:alignment", "SHA1(ptr,size) depends on the alignment of ptr", describe(k) + " " + tag + " got=" + vf::hex(b));
+      }
+      {
+        PH_CTOR(phosg::SHA256 h(p, n));
+        string b = PH(h.bin());
+        if (b != string((const char*)k.sha256, 32)) C->violation("sha256:alignment", "SHA256(ptr,size) depends on the alignment of ptr", describe(k) + " " + tag + " got=" + vf::hex(b));
+      }
+      uint32_t c = PH(phosg::crc32(p, n));
+      if (c != k.crc) C->violation("crc32:alignment", "crc32(ptr,size) depends on the alignment of ptr", describe(k) + " " + tag + fmt(" got=%08x expected=%08x", c, k.crc));
+      uint32_t f = PH(phosg::fnv1a32(p, n));
+      if (f != k.fnv32) C->violation("fnv1a32:alignment", "fnv1a32(ptr,size) depends on the alignment of ptr", describe(k) + " " + tag + fmt(" got=%08x expected=%08x", f, k.fnv32));
+      uint64_t g = PH(phosg::fnv1a64(p, n));
+      if (g != k.fnv64) C->violation("fnv1a64:alignment", "fnv1a64(ptr,size) depends on the alignment of ptr", describe(k) + " " + tag + fmt(" got=%016" PRIx64 " expected=%016" PRIx64, g, k.fnv64));
+      free(blk);
+      C->cls(fmt("alignment:offset%zu:%s:%s", off, slack ? "inside-block" : "flush-at-end", n <= 80 ? "len<=80" : "large"));
+    }
+  }
+}
+
+static const char* digest_shape(const uint8_t* d, size_t n) {
+  bool text = true, letters = true, quote = false;
+  for (size_t i = 0; i < n; i++) {
+    uint8_t b = d[i];
+    if (!((b >= 0x20 && b <= 0x7E) || b == 9 || b == 10 || b == 13)) text = false;
+    if (!((b >= 'a' && b <= 'z') || (b >= 'A' && b <= 'Z'))) letters = false;
+    if (b == '"' || b == '\'' || b == '\\') quote = true;
+  }
+  return letters ? "all-letters" : text ? (quote ? "all-text-with-quote-or-backslash" : "all-text") : quote ? "has-quote-or-backslash" : "other";
+}
+
+// compare what the static initializer stored with the oracle's values
+static void check_early() {
+  string want_in = C->arg("early_input"), blob = C->arg("early_expect");
+  if (want_in.empty() && blob.empty()) return;
+  if (want_in != vf::hex(EARLY_INPUT, EARLY_LEN) || C->arg("early_cut") != fmt("%zu", EARLY_CUT) || blob.size() != 2 * (16 + 20 + 32 + 4 + 4 + 8 + 4)) {
+    fprintf(stderr, "[harness-error] early probe input of the harness and of vf/oracles/c10.py differ\n");
+    exit(3);
+  }
+  vector<uint8_t> e(blob.size() / 2);
+  for (size_t i = 0; i < e.size(); i++) e[i] = (uint8_t)strtoul(blob.substr(2 * i, 2).c_str(), nullptr, 16);
+  uint32_t crc, fnv32, crc_prefix;
+  uint64_t fnv64;
+  memcpy(&crc, &e[68], 4);
+  memcpy(&fnv32, &e[72], 4);
+  memcpy(&fnv64, &e[76], 8);
+  memcpy(&crc_prefix, &e[84], 4);
+  const EarlyProbe& g = g_early;
+  string kase = "input=" + want_in + " (called from a static initializer of the harness translation unit, before main())";
+  C->evaluations += 12;
+  if (!g.ran || g.threw) C->violation("early-call:threw", "a C10 function threw when called during static initialization", kase);
+  auto dg = [&](const char* name, const string& bin, const string& hex, const uint8_t* want, size_t n) {
+    if (bin != string((const char*)want, n)) C->violation(fmt("early-call:%s:bin", name), fmt("%s().bin() computed during static initialization differs from hashlib", name), kase + " got=" + vf::hex(bin) + " expected=" + vf::hex(want, n));
+    if (lower(hex) != vf::hex(want, n)) C->violation(fmt("early-call:%s:hex", name), fmt("%s().hex() computed during static initialization differs from hashlib", name), kase + " got=" + hex + " expected=" + vf::hex(want, n));
+  };
+  dg("md5", g.md5_bin, g.md5_hex, &e[0], 16);
+  dg("sha1", g.sha1_bin, g.sha1_hex, &e[16], 20);
+  dg("sha256", g.sha256_bin, g.sha256_hex, &e[36], 32);
+  if (g.crc != crc) C->violation("early-call:crc32:value", "crc32 computed during static initialization differs from zlib.crc32", kase + fmt(" got=%08x expected=%08x", g.crc, crc));
+  if (g.crc_prefix != crc_prefix) C->violation("early-call:crc32:prefix-value", "crc32 of a prefix computed during static initialization differs from zlib.crc32", kase + fmt(" cut=%zu got=%08x expected=%08x", EARLY_CUT, g.crc_prefix, crc_prefix));
+  uint32_t chained = PH(phosg::crc32(EARLY_INPUT + EARLY_CUT, EARLY_LEN - EARLY_CUT, g.crc_prefix));
+  if (chained != crc) C->violation("early-call:crc32:chained-later", "running CRC computed during static initialization and continued in main() differs from zlib.crc32 of the whole", kase + fmt(" cut=%zu early=%08x got=%08x expected=%08x", EARLY_CUT, g.crc_prefix, chained, crc));
+  if (g.fnv32 != fnv32 || g.fnv32s != fnv32) C->violation("early-call:fnv1a32:value", "fnv1a32 computed during static initialization differs from the recurrence", kase + fmt(" got=%08x/%08x expected=%08x", g.fnv32, g.fnv32s, fnv32));
+  if (g.fnv64 != fnv64 || g.fnv64s != fnv64) C->violation("early-call:fnv1a64:value", "fnv1a64 computed during static initialization differs from the recurrence", kase + fmt(" got=%016" PRIx64 " expected=%016" PRIx64, g.fnv64, fnv64));
+  C->cls("early-call:all-functions-before-main");
+}
+
 static void run_case(const Case& k) {
   size_t n = k.len;
   // exact-size block, data placed at offset id%4 so the end of the input is the end of the allocation
@@ -297,9 +434,20 @@ static void run_case(const Case& k) {
       }
     }
 
+  if (k.kind == 0 && n <= 80) check_alignment(k, true);
+  if (k.kind == 4 && n <= 66000) check_alignment(k, false);
+  if (k.kind == 5) {
+    size_t r64 = n % 64;
+    C->cls((r64 == 0 || r64 == 55 || r64 == 56 || r64 == 63) ? fmt("dense:len%%64=%zu", r64) : string("dense:len%64=other"));
+  }
+  if (k.kind == 6) {
+    C->cls(fmt("digest-shape:md5:%s", digest_shape(k.md5, 16)));
+    C->cls(fmt("digest-shape:sha1:%s", digest_shape(k.sha1, 20)));
+  }
+
   size_t blocks = n / 64;
   C->cls(fmt("digest:mod64=%zu:%s", n % 64, blocks == 0 ? "0-full-blocks" : blocks == 1 ? "1-full-block" : blocks <= 4 ? "2-4-full-blocks" : "5+-full-blocks"));
-  C->cls(fmt("input:%s:%s:align%zu", k.kind == 1 ? "random" : k.kind == 4 ? "ladder" : "enumerated", FILLS[k.fill & 3], off));
+  C->cls(fmt("input:%s:%s:align%zu", k.kind == 1 ? "random" : k.kind == 4 ? "ladder" : k.kind == 5 ? "dense" : k.kind == 6 ? "shaped" : "enumerated", FILLS[k.fill & 3], off));
   if (k.kind == 1) {
     long d = (long)((n + 32) % 64) - 32;  // distance from the nearest multiple of 64
     C->cls(fmt("random:len=64k%+ld", d));
@@ -499,6 +647,7 @@ int main(int argc, char** argv) {
     fprintf(stderr, "[harness-error] trailing bytes in case file %s\n", path.c_str());
     return 3;
   }
+  check_early();
   if (mt) run_mt(all);
   return c.finish();
 }
